@@ -13,7 +13,7 @@ from vlib import Rng
 
 PID = "C08"
 NAMESPACE = "Simu.C08"
-THEOREMS = ["code_as_modelled", "init_inv", "remesh_inv", "division_inv", "faceTypes_inv", "contact_inv",
+THEOREMS = ["code_as_modelled", "epi_types_admissible", "admission_gate", "init_inv", "remesh_inv", "division_inv", "faceTypes_inv", "contact_inv",
             "polarise_inv", "removal_inv", "removal_exact", "erase_alone_breaks", "iteration_inv", "reach_inv",
             "use_inv", "deref_safe", "reach_deref_safe", "ids_never_reused", "stateAfter_eq", "checker_sound",
             "cells0_ok"]
@@ -148,6 +148,11 @@ def oracle_state(o, hist, cutoff, pos=None):
                 viol.append(("a persistent cell id is reused", "id %d re-appears after it had left the population" % i))
             elif i not in hist["alive"] and i < hist["counter"]:
                 viol.append(("a persistent cell id is reused", "id %d appears although the counter had already passed it (counter was %d)" % (i, hist["counter"])))
+        for c in cells:
+            prev = hist["obj_of_id"].get(c["id"])
+            if prev is not None and prev != c["obj"]:
+                viol.append(("a persistent cell id is reused", "id %d designated cell object %d and now designates cell object %d" % (c["id"], prev, c["obj"])))
+            hist["obj_of_id"][c["id"]] = c["obj"]
         if o["counter"] < hist["counter"]:
             viol.append(("the id counter went back", "from %d to %d" % (hist["counter"], o["counter"])))
         for i in list(hist["alive"]):
@@ -380,7 +385,7 @@ def analyse(sc, rec, status, errtail, drv, stats, V, widen=False):
     stats["status"][status.split()[0]] = stats["status"].get(status.split()[0], 0) + 1
     if status.startswith("rejected"):
         return 0
-    hist = {"alive": set(), "dead": set(), "counter": 0}
+    hist = {"alive": set(), "dead": set(), "counter": 0, "obj_of_id": {}}
     seen_what = set()
     checks = []
     nextobj = 0
@@ -487,7 +492,10 @@ def run(ctx):
     scenarios = [dict(c) for c in CORPUS] + [gen_scenario(r, k) for k in range(n)]
     results = run_harness(exe, scenarios)
     drv = vlib.driver_path("drv_c08")
-    if not os.path.exists(drv):
+    if gen.get("Population", {}).get("error"):
+        V.fail_tie("correspondence", "the model driver could not be rebuilt for the current source (translation failed)")
+        drv = None
+    elif not os.path.exists(drv):
         V.fail_tie("correspondence", "model driver missing (lake build failed)")
         drv = None
     stats = new_stats()
